@@ -184,7 +184,7 @@ def run(ck):
     for name, hi in (("scid", 65535), ("vcid", 63), ("map_id", 15)):
         v = sym(name, ty="int")
         st, m = D.prove(env.facts, binop("<=", v, C(hi)))
-        ck.verdict("G-RANGE", "PrimaryHeaderBase._pack_common_header", f"{name} above {hi} is refused", [] if st == "proved" else [f"{st}: {m}"], "guard")
+        ck.verdict3("G-RANGE", "PrimaryHeaderBase._pack_common_header", f"{name} above {hi} is refused", st, m, "guard")
     for x in it.raises[n0:]:
         if x["kind"] == "explicit" and not x["caught"]:
             ck.verdict("G-RANGE", "PrimaryHeaderBase._pack_common_header", "out-of-range IDs raise ValueError", [] if it.exc_matches(x["exc"], ("ValueError",)) else [x["exc"]], x["exc"], nontrivial=False)
@@ -350,7 +350,7 @@ def run(ck):
         R.check_lin_equal(ck, read_path(it, env, h, "frame_len"), R.spec_len(spec) - Lin({}, 1), "TransferFrame.set_frame_len_in_header", f"frame_len field == packed size - 1 ({tag})")
         if has_ocf:
             st, m = D.prove(env.facts, binop("==", length(sym("op_ctrl_field", ty="bytes")), C(4)))
-            ck.verdict("G-REFUSE", "TransferFrame.pack", f"an OCF that is not 4 octets is refused ({tag})", [] if st == "proved" else [f"{st}: {m}"], "guard")
+            ck.verdict3("G-REFUSE", "TransferFrame.pack", f"an OCF that is not 4 octets is refused ({tag})", st, m, "guard")
     # ---------------------------------------------------------------- frame decoder
     tasks = []
     for ftype in ("FIXED", "VARIABLE"):
